@@ -137,3 +137,7 @@ AGGR["targets"].append({"raw": lambda tr: (
     "func": ("Aggregates.with_zero_div", Func("agg_with_zero_div", [("self", AGG, None)], AGG, None, AGG))})
 
 SPECS["Mean"] = MEAN
+
+
+# instance-independent models (over lib/PyVal): (name, translator module, source file)
+PLAIN = [("Utils", "utils2coq", "utils.py")]
